@@ -105,11 +105,43 @@ def hierarchy_exception(u):
   return sub(f'hier sub {u}')
 
 
+def _earlier_boom(tag=None):
+  raise Plain(f'failure of an earlier build {tag}')
+
+
+def earlier_proxy_factory():
+  """The exception object that escaped an EARLIER failed fdl.build (it already carries Fiddle's
+  context for that other configuration) is raised again by the callable. The earlier build
+  runs now, i.e. before the build under observation starts (builds do not nest)."""
+  import fiddle as fdl
+  n = [0]
+
+  def _pair(x=None):
+    return x
+
+  def earlier():
+    n[0] += 1
+    try:
+      fdl.build(fdl.Config(_pair, x=[fdl.Config(_earlier_boom, tag=n[0])]))
+    except Plain as e:
+      return e
+    raise AssertionError('the earlier build did not fail')
+
+  pool = [earlier()]
+
+  def make(u):
+    del u
+    return pool[0]
+  return make
+
+
 def raiser(shape):
   """Returns (category, function raising a fresh instance with original message text)."""
   table = {
       'plain': lambda u: Plain(f'plain failure {u}'),
       'subclass-after-base-class-failed': hierarchy_exception,
+      'message-ends-with-whitespace': lambda u: Plain(f'unknown optimizer: {u} \t'),
+      'message-ends-with-crlf': lambda u: Plain(f'bad line {u}\r\n'),
       'dynamic-class-same-qualname': lambda u: fresh_exception_class()(f'dyn {u}'),
       'value-error': lambda u: ValueError(f'bad value {u}'),
       'multi-arg': lambda u: Plain('first', u, 'third'),
@@ -136,10 +168,13 @@ def raiser(shape):
       'base-exception:system-exit': lambda u: SystemExit(f'exit {u}'),
       'base-exception:generator-exit': lambda u: GeneratorExit(f'genexit {u}'),
   }
+  if shape == 'proxy-from-an-earlier-failed-build':
+    return earlier_proxy_factory()
   return table[shape]
 
 
-SHAPES = ['plain', 'subclass-after-base-class-failed', 'dynamic-class-same-qualname', 'value-error', 'multi-arg', 'no-arg', 'custom-init', 'kwonly-init',
+SHAPES = ['plain', 'message-ends-with-whitespace', 'message-ends-with-crlf',
+          'proxy-from-an-earlier-failed-build', 'subclass-after-base-class-failed', 'dynamic-class-same-qualname', 'value-error', 'multi-arg', 'no-arg', 'custom-init', 'kwonly-init',
           'str-override', 'slots', 'custom-new-incompatible', 'custom-new-compatible',
           'metaclass', 'unsubclassable', 'multi-base', 'key-error', 'os-error',
           'unicode-error', 'exception-group', 'stop-iteration', 'stop-async-iteration',
